@@ -3,6 +3,7 @@ From Coq Require Import List ZArith Bool.
 Import ListNotations.
 From TI Require Import lib.Term lib.TermFacts lib.Rect model.Block proofs.BlockProofs proofs.BlockRect.
 From TI Require model.RenderData proofs.RenderDataProofs.
+From TI Require gen.BlockSrc proofs.BlockSrcTie.
 Open Scope Z_scope.
 
 (** After executing a block render of [rows] (pixel pairs at render resolution, as
@@ -88,3 +89,22 @@ Theorem C02_composite_nearest :
     2 * Z.abs (255 * e - (s * a + d * (255 - a))) < 255 + 1.
 Proof. exact TI.proofs.RenderDataProofs.comp_exact_nearest. Qed.
 Print Assumptions C02_composite_nearest.
+
+(** *** the renderer's kernels tied to the source as theorems (T): [update_buffer()] and the
+    run-boundary test of [BlockImage._render_image] are translated from [image/block.py] on every
+    run into [gen/BlockSrc.v] by [harness/tx/tx_block.py] (which also pins the loop skeleton
+    around them to the text the model's loop mirrors); for ALL arguments they are the model's
+    [update_buffer] and [flush_cond], the functions every theorem above is about *)
+Theorem C02_source_update_buffer :
+  forall alpha kitty bgcol split c1 c2 ac1 ac2 n,
+    update_buffer alpha kitty bgcol split c1 c2 ac1 ac2 n
+    = TI.gen.BlockSrc.src_update_buffer alpha kitty bgcol split c1 c2 ac1 ac2 n.
+Proof. exact TI.proofs.BlockSrcTie.update_buffer_is_source. Qed.
+Print Assumptions C02_source_update_buffer.
+
+Theorem C02_source_run_boundary :
+  forall alpha c1 c2 ac1 ac2 p,
+    flush_cond alpha c1 c2 ac1 ac2 p
+    = TI.gen.BlockSrc.src_run_boundary alpha c1 c2 ac1 ac2 (p1 p) (p2 p) (a1 p) (a2 p).
+Proof. exact TI.proofs.BlockSrcTie.flush_cond_is_source. Qed.
+Print Assumptions C02_source_run_boundary.
